@@ -8,6 +8,7 @@ cidr_match is compared with Python's ipaddress on boundary-rich samples."""
 import ipaddress
 import json
 import re
+import time
 
 from common import *
 import c08
@@ -259,10 +260,76 @@ def run(tier, seed, replay=None):
         rep.broken_obligation("correspondence C02: Dispatch.v / MiluEval.v and the implementation differ on %d case(s)" % n_diff, json.dumps(first_d)[:3000])
         if first_d and "scenario" in first_d:
             rep.violations[-1][1]["scenarios"] = [first_d["scenario"]]
+    # ---- the attributes filters see are the real connection's: clients of the real listeners from every kind of address ----
+    # one SOCKS and one HTTP listener per local address; a rule per listener serves the request only when request.source.host
+    # is the text of the address the client really connected from and cidr_match agrees; everything else is denied
+    import socket as _s
+    import struct as _st
+    import e2e
+    import c06
+    addrs = [("v4-loopback", "127.0.0.1", _s.AF_INET), ("v6-loopback", "::1", _s.AF_INET6)]
+    g6 = c06.global_ipv6()
+    if g6:
+        addrs.append(("v6-global", g6, _s.AF_INET6))
+    org_a = e2e.Server(e2e.echo_handler)
+    ls, rules_a, ports_a = [], [], {}
+    for name, a, fam in addrs:
+        for kind in ("socks", "http"):
+            ports_a[(name, kind)] = e2e.free_port()
+            b = "%s:%d" % (a if fam == _s.AF_INET else "[%s]" % a, ports_a[(name, kind)])
+            ls.append({"name": "%s-%s" % (kind, name), "type": kind, "bind": b})
+        pre = "/32" if fam == _s.AF_INET else "/128"
+        rules_a.append({"filter": "(request.listener == \"socks-%s\" || request.listener == \"http-%s\") && request.source.host == \"%s\" && cidr_match(request.source.host, \"%s%s\") && request.source.port > 0" % (
+            name, name, a, a, pre), "target": "direct"})
+    # a dual-stack listener reached over IPv4: the client is an IPv4 client
+    ports_a[("dual", "socks")] = e2e.free_port()
+    ls.append({"name": "socks-dual", "type": "socks", "bind": "[::]:%d" % ports_a[("dual", "socks")]})
+    rules_a.append({"filter": "request.listener == \"socks-dual\" && request.source.host == \"127.0.0.1\" && cidr_match(request.source.host, \"127.0.0.0/8\")", "target": "direct"})
+    pa = e2e.Proxy(driver, ls, [{"name": "direct"}], rules_a, metrics=True, name="c02-attrs")
+    attr_stats = {}
+    try:
+        pa.start()
+        cases_a = [(n_, k_, a_, f_) for n_, a_, f_ in addrs for k_ in ("socks", "http")] + [("dual", "socks", "127.0.0.1", _s.AF_INET)]
+        for name, kind, a, fam in cases_a:
+            c = _s.socket(fam, _s.SOCK_STREAM)
+            c.settimeout(4)
+            ok, got = False, b""
+            try:
+                c.connect((a, ports_a[(name, kind)]))
+                src_port = c.getsockname()[1]
+                if kind == "socks":
+                    c.sendall(b"\x05\x01\x00\x05\x01\x00\x01" + _s.inet_aton("127.0.0.1") + _st.pack(">H", org_a.port))
+                    got = e2e.recv_exact(c, 12, timeout=4)
+                    ok = got[:4] == b"\x05\x00\x05\x00"
+                else:
+                    c.sendall(("CONNECT 127.0.0.1:%d HTTP/1.1\r\n\r\n" % org_a.port).encode())
+                    got = e2e.recv_until(c, b"\r\n\r\n")
+                    ok = got.startswith(b"HTTP/1.1 200")
+                time.sleep(0.2)
+                live_src = [x["source"] for x in pa.api("live")[1]] if ok else []
+            except OSError as e:
+                got, live_src, src_port = str(e).encode(), [], 0
+            finally:
+                e2e.close_quiet(c)
+            attr_stats["%s/%s" % (name, kind)] = ok
+            want_src = ("%s:%d" if fam == _s.AF_INET else "[%s]:%d") % (a, src_port)
+            if not ok:
+                rep.fail("C02: a %s client connecting from %s to listener %s-%s was not served by the rule that asks for request.source.host == \"%s\" (reply %r): the attribute filters see is not the connection's address" % (
+                    kind, a, kind, name, a, got[:40]), {"kind": "failing-input", "scenarios": [], "client_address": a, "listener": "%s-%s" % (kind, name), "reply": got.hex()[:200]})
+            elif want_src not in live_src:
+                rep.fail("C02: a %s client connecting from %s: the connection is listed with source %s" % (kind, want_src, live_src), {"kind": "failing-input", "scenarios": [], "client_address": a})
+    except RuntimeError as e:
+        rep.fail("C02: attribute world did not start: %s" % str(e)[-300:], {"kind": "failing-input", "scenarios": []})
+    finally:
+        pa.stop()
+        org_a.close()
+        import shutil
+        shutil.rmtree(pa.dir, ignore_errors=True)
     if broken and not rep.violations:
         rep.broken_obligation(broken[0], broken[1])
     rep.coverage.update({
-        "evaluations": len(lines) + len(cl), "distinct_nontrivial": len(nt) + ncidr,
+        "source_attribute_clients": attr_stats,
+        "evaluations": len(lines) + len(cl) + len(attr_stats), "distinct_nontrivial": len(nt) + ncidr,
         "rule": "random rule lists (0-8 rules; filters from a pool over every request attribute incl. failing ones, typed-generated boolean filters, filterless and deny rules anywhere, occasional invalid rules / unknown targets) x 5 requests x feature x connector feature sets and outcomes; cidr_match on every IPv4 prefix length and sampled IPv6 prefix lengths at network-1/network/last/last+1 plus malformed texts; non-trivial = distinct loadable scenario, or cidr sample",
         "input_distribution": dist, "cidr_samples": ncidr, "filter_evaluations": len(evals), "model_impl_disagreements": n_diff,
         "samples": [dict(case=lines[i][:200], impl=impl[i][:160]) for i in range(0, len(lines), max(1, len(lines) // 5))][:5],
